@@ -3,30 +3,42 @@
    this is the whole chain  source --translator--> Gen.f --GenEq--> Model.f --Facets--> property  checked by coqc on every run.
    (The other theorems transfer the same way; these are the ones spelled out.) *)
 From FB Require Import Sem.Base Sem.Lemmas Model.Fb Model.Deframers Model.Adapters Spec.Api Spec.Frames Spec.StdAdapters
-  Facets.Fb Facets.Fb2 Facets.DfContract Facets.Rf Facets.RfRefine Facets.Frames Facets.C02 Facets.Adapters.
+  Facets.Fb Facets.Fb2 Facets.DfContract Facets.Rf Facets.RfInv Facets.RfRefine Facets.Frames Facets.C02 Facets.Adapters.
 From FB Require Gen.FbGen Gen.AdaptersGen Gen.DeframersGen GenEq.Fb_read_frame GenEq.Fb_read_bytes GenEq.Ad_chain_read GenEq.Ad_take_read
   GenEq.Df_deframe_line GenEq.Df_deframe_crlf GenEq.Df_deframe_null.
 Open Scope Z_scope.
 
-Lemma loop_fuel_ext {S R} (b1 b2 : M S (option R)) : (forall w, b1 w = b2 w) ->
-  forall fuel w, loop_fuel fuel b1 w = loop_fuel fuel b2 w.
+(* two loop bodies that agree on the states satisfying an invariant the second one keeps give the same loop from such a state *)
+Lemma loop_fuel_ext_inv {S R} (I : S -> Prop) (b1 b2 : M S (option R)) :
+  (forall w, I w -> b1 w = b2 w) -> (forall w v w', I w -> b2 w = Val v w' -> I w') ->
+  forall fuel w, I w -> loop_fuel fuel b1 w = loop_fuel fuel b2 w.
 Proof.
-  intros H. induction fuel as [|f IH]; intros w; [reflexivity|].
-  cbn [loop_fuel]. unfold bind. rewrite H. destruct (b2 w) as [[v|] w'|w']; try reflexivity. apply IH.
+  intros He Hk. induction fuel as [|f IH]; intros w Hw; [reflexivity|].
+  cbn [loop_fuel]. unfold bind. rewrite (He w Hw). destruct (b2 w) as [[v|] w'|w'] eqn:E; try reflexivity.
+  apply IH. exact (Hk w None w' Hw E).
 Qed.
 
-Lemma read_frame_source_eq chk RS (R : Reader RS) fuel df w :
-  FbGen.read_frame chk R fuel df w = Fb.read_frame chk R fuel df w.
-Proof. unfold FbGen.read_frame, Fb.read_frame. apply loop_fuel_ext. intros w0. apply GenEq.Fb_read_frame.gen_eq. Qed.
+Lemma read_frame_source_eq SIZE chk RS (R : Reader RS) df : sane R -> (forall u, zlen u <= SIZE -> df_in_bounds df u) ->
+  forall fuel w, Inv SIZE (fst w) -> FbGen.read_frame SIZE chk R fuel df w = Fb.read_frame chk R fuel df w.
+Proof.
+  intros HR Hdf fuel w HI. unfold FbGen.read_frame, Fb.read_frame.
+  apply (loop_fuel_ext_inv (fun w => Inv SIZE (fst w))); [| |exact HI].
+  - intros w0 H0. exact (GenEq.Fb_read_frame.gen_eq SIZE chk RS R df w0 H0).
+  - intros [s rs] v [s' rs'] H0 E. cbn [fst] in *.
+    apply (read_frame_body_inv SIZE chk R df HR s rs v s' rs' H0); [|exact E].
+    apply Hdf. rewrite (zlen_unread SIZE s H0). unfold len_. destruct H0 as (H1&H2&H3&H4&H5). lia.
+Qed.
 
 (* C02: one call of the read_frame that is in the tree now, under any chunking, returns `next` of unread ++ unpulled *)
 Theorem c02_call_source : forall SIZE chk (R : Reader stream_reader) df,
   implements R stream_ar -> df_contract SIZE df ->
   forall s st fuel, Inv2 SIZE s -> zlen (sr_rest st) < Z.of_nat fuel ->
-  exists r s' st' o, FbGen.read_frame chk R fuel df (s, st) = Val r (s', st') /\ out_of r = Some o /\
+  exists r s' st' o, FbGen.read_frame SIZE chk R fuel df (s, st) = Val r (s', st') /\ out_of r = Some o /\
     (o, unread s' ++ sr_rest st') = next SIZE df (unread s ++ sr_rest st) /\ Inv2 SIZE s'.
 Proof.
-  intros SIZE chk R df HR Hdf s st fuel HI Hf. rewrite read_frame_source_eq. exact (Facets.C02.c02_call SIZE chk R df HR Hdf s st fuel HI Hf).
+  intros SIZE chk R df HR Hdf s st fuel HI Hf.
+  rewrite (read_frame_source_eq SIZE chk _ R df (implements_sane R _ HR) (contract_in_bounds SIZE df Hdf) fuel (s, st) (proj1 HI)).
+  exact (Facets.C02.c02_call SIZE chk R df HR Hdf s st fuel HI Hf).
 Qed.
 
 (* the three deframers that are in the tree now honour the documented contract, so the statement above applies to
@@ -51,7 +63,7 @@ Qed.
 Theorem c02_line_source : forall SIZE chk (R : Reader stream_reader), implements R stream_ar -> SIZE <= usize_max ->
   forall s st fuel, Inv2 SIZE s -> zlen (sr_rest st) < Z.of_nat fuel ->
   let df := df_of (DeframersGen.deframe_line chk) in
-  exists r s' st' o, FbGen.read_frame chk R fuel df (s, st) = Val r (s', st') /\ out_of r = Some o /\
+  exists r s' st' o, FbGen.read_frame SIZE chk R fuel df (s, st) = Val r (s', st') /\ out_of r = Some o /\
     (o, unread s' ++ sr_rest st') = next SIZE df (unread s ++ sr_rest st) /\ Inv2 SIZE s'.
 Proof.
   intros SIZE chk R HR Hs s st fuel HI Hf df.
@@ -60,8 +72,8 @@ Qed.
 
 (* C04: the read_bytes that is in the tree now panics exactly when asked for more than len(), leaving the buffer as it was *)
 Theorem c04_read_bytes_source : forall SIZE chk s n, Inv SIZE s -> 0 <= n <= usize_max -> len_ s < n ->
-  FbGen.read_bytes chk n s = Panic s.
-Proof. intros SIZE chk s n HI Hn Hlt. rewrite GenEq.Fb_read_bytes.gen_eq. apply (read_bytes_panic SIZE); assumption. Qed.
+  FbGen.read_bytes SIZE chk n s = Panic s.
+Proof. intros SIZE chk s n HI Hn Hlt. rewrite (GenEq.Fb_read_bytes.gen_eq SIZE chk n s HI). apply (read_bytes_panic SIZE); assumption. Qed.
 
 (* C08 / C09: the adapters that are in the tree now are std's Chain / Take, call for call *)
 Theorem c08_sim_source : forall R1S RWS (R1 : Reader R1S) (R2 : Reader RWS) buf w,
